@@ -52,6 +52,14 @@ type FuncContract struct {
 	Line      int
 	Ghosts    []*GhostStmt
 	Decreases *Clause
+	Holds     []HoldSpec // locks the caller must hold on entry
+}
+
+// HoldSpec: "holds <lock expr> R|W".
+type HoldSpec struct {
+	E    *Expr
+	Mode string
+	Text string
 }
 
 // GhostStmt: "at <label> assert/assume EXPR" hooks are not needed yet; placeholder for `use` hints.
@@ -98,13 +106,14 @@ type ContractSet struct {
 	Lemmas  []*Lemma
 	Consts  map[string]*Expr
 	Order   []string
+	Guarded map[string]string   // pkgpath.Type.field -> name of the lock field of the same object
 	Ghost   map[string]string   // ghost heap components: name -> sort of the per-object value
 	Closed  map[string]bool     // pkgpath.TypeName of interfaces treated as closed-world
 	TypeInv map[string][]*Clause // pkgpath.TypeName -> own-field object invariants
 }
 
 func NewContractSet() *ContractSet {
-	return &ContractSet{Funcs: map[string]*FuncContract{}, Specs: map[string]*SpecFun{}, Consts: map[string]*Expr{}, Ghost: map[string]string{}, Closed: map[string]bool{}, TypeInv: map[string][]*Clause{}}
+	return &ContractSet{Funcs: map[string]*FuncContract{}, Specs: map[string]*SpecFun{}, Consts: map[string]*Expr{}, Guarded: map[string]string{}, Ghost: map[string]string{}, Closed: map[string]bool{}, TypeInv: map[string][]*Clause{}}
 }
 
 // ParseContractFile reads //@ lines from a file. pkgPath is "" for extern files.
@@ -186,6 +195,27 @@ func (cs *ContractSet) ParseContractFile(path, pkgPath string) error {
 			cs.Funcs[k] = fc
 			cs.Order = append(cs.Order, k)
 			cur = fc
+		case "guarded":
+			// guarded Type.field by lockfield
+			f := strings.Fields(rest)
+			if len(f) != 3 || f[1] != "by" {
+				return fail(fmt.Errorf("guarded: want 'Type.field by lockfield'"))
+			}
+			cs.Guarded[pkgPath+"."+f[0]] = f[2]
+		case "holds":
+			if cur == nil {
+				return fail(fmt.Errorf("holds outside func"))
+			}
+			i := strings.LastIndexAny(rest, " \t")
+			if i < 0 {
+				return fail(fmt.Errorf("holds: want '<lock expr> R|W'"))
+			}
+			mode := strings.TrimSpace(rest[i+1:])
+			e, err := ParseExpr(strings.TrimSpace(rest[:i]))
+			if err != nil {
+				return fail(err)
+			}
+			cur.Holds = append(cur.Holds, HoldSpec{E: e, Mode: mode, Text: rest})
 		case "ghostheap":
 			name, srt := splitWord(rest)
 			cs.Ghost[name] = srt
